@@ -94,7 +94,12 @@ class AbstractTypeResolver:
                     break
             # Subclasses of blocklisted types are classified by the same
             # instance-dependent rules, so they must not be cached either.
-            if not issubclass(obj_type, tuple(self.cache_blocklist)):
+            # The same holds for objects that report another class than their
+            # concrete type (e.g. weakref proxies): isinstance honours the
+            # reported class, so their type does not determine the result.
+            if getattr(obj, "__class__", obj_type) is obj_type and not issubclass(
+                obj_type, tuple(self.cache_blocklist)
+            ):
                 self.type_map[obj_type] = enum_type
 
         return enum_type
